@@ -24,6 +24,7 @@ instance : FloatLike Rat where
   sqrt _ := 0
   log _ := 0
   rpow _ _ := 0
+  powInt x n := x ^ n
   isZero x := x == 0
   lt x y := decide (x < y)
   beq x y := x == y
@@ -106,8 +107,8 @@ theorem val_powInt {a r : Mag Rat} {n : Int} (h : a.powInt n = .ok r) : r.val = 
         conv => rhs; rw [← Int.toNat_of_nonneg hn]
         rw [zpow_natCast]; push_cast; rfl
       · injection h with h; subst h
-        simp only [val_flt, val_int, ipow_eq]; rfl
-    | flt x => injection h with h; subst h; simp [ipow_eq]
+        simp only [val_flt, val_int]; rfl
+    | flt x => injection h with h; subst h; simp [FloatLike.powInt]
     | dec x => injection h with h; subst h; simp [ipow_eq]
 
 end Measured
